@@ -35,7 +35,7 @@ def _unescape_z3(s):
     return re.sub(r'\\u\{([0-9a-fA-F]+)\}', lambda m: chr(int(m.group(1), 16)), s)
 
 def zstr(s):
-    return z3.StringVal(s)
+    return zs(s)
 
 def smart_replace(ex, t, a, b):
     """s.replace(a, b) as a z3 term"""
@@ -83,6 +83,7 @@ def to_z3re(items, notes):
             else: parts.append(z3.Loop(r, lo, hi))
         elif op == _sc.SUBPATTERN: parts.append(to_z3re(av[3], notes))
         elif op == _sc.BRANCH: parts.append(z3.Union(*[to_z3re(b, notes) for b in av[1]]) if len(av[1]) > 1 else to_z3re(av[1][0], notes))
+        elif op == _sc.NEGATE: raise Unsupported('regex negate outside class')
         elif op == _sc.AT:
             if av in (_sc.AT_BEGINNING, _sc.AT_BEGINNING_STRING, _sc.AT_END_STRING): continue
             if av == _sc.AT_END:
